@@ -1542,3 +1542,12 @@ func (w *World) canReturn(fn *ssa.Function, eval func(ssa.Value) (bool, bool), d
 	walk(fn.Blocks[0], nil)
 	return found
 }
+
+// phiOnPath replaces phis by the value of the edge the enumerated path came by
+// (no look through helper results).
+func (w *World) phiOnPath(v ssa.Value) ssa.Value {
+	saved := w.shallowResolve
+	w.shallowResolve = true
+	defer func() { w.shallowResolve = saved }()
+	return w.ResolveOnPath(v)
+}
